@@ -46,7 +46,7 @@ func ChildMain(args []string) {
 	}
 	path, op := args[0], args[1]
 	q := parseReq(hx.Tokens(op))
-	if q.fail != "" {
+	if q.fail != "" && q.fail != "nofile" {
 		limit, ok := failLimit(path, q)
 		if ok {
 			// writes to regular files beyond `limit` bytes fail with EFBIG (SIGXFSZ ignored): a full disk / quota
@@ -62,6 +62,17 @@ func ChildMain(args []string) {
 		}
 	}
 	pv := types.LoadFilePV(path)
+	if q.fail == "nofile" {
+		// no new file descriptor: creating the temp file fails with EMFILE
+		var rl syscall.Rlimit
+		if err := syscall.Getrlimit(syscall.RLIMIT_NOFILE, &rl); err != nil {
+			os.Exit(4)
+		}
+		rl.Cur = 0
+		if err := syscall.Setrlimit(syscall.RLIMIT_NOFILE, &rl); err != nil {
+			os.Exit(4)
+		}
+	}
 	if f, err := os.Open(markBegin); err == nil {
 		f.Close()
 	}
